@@ -14,6 +14,7 @@ import random
 
 from scen import Scn
 import scenario_common as sc
+import mcrapid
 
 HOOKS = ["next", "restoreerror", "initerror", "timeout", "exit", "nopoll", "next-before-restore"]
 
@@ -132,6 +133,8 @@ def scenarios(ctx):
 def run(ctx):
     ctx.level = "model_checking"
     ctx.assumptions += sc.ASSUME + ["'shortly after the hook timeout' is read as at most 500 ms later"]
+    # E1: snapshot mode in spec/MC_Rapid.tla (restore requests, restore poll / error of the runtime, hook deadline)
+    mcrapid.check(ctx, ['RestoreOkOnlyAfterHook', 'NoCrash', 'RuntimeAfterRegistrations'], extra_configs=('restore',) if ctx.quick else ('restore', 'restore2'))
     sc.run_families(ctx, scenarios(ctx), "restore", require_done=True)
     ctx.coverage["exhaustive"] = False
 
